@@ -172,6 +172,10 @@ func c10Hostile(target string) []c10Doc {
 			d("keycount-neg", "<ListBucketResult><Name>b</Name><KeyCount>-2</KeyCount><MaxKeys>-5</MaxKeys><IsTruncated>false</IsTruncated><Contents><Key>a.txt</Key><Size>3</Size></Contents></ListBucketResult>"),
 			d("keycount-min", "<ListBucketResult><KeyCount>-9223372036854775808</KeyCount><MaxKeys>0</MaxKeys><Contents><Key>a.txt</Key><Size>-1</Size></Contents></ListBucketResult>"),
 			d("keycount-huge", "<ListBucketResult><KeyCount>9223372036854775807</KeyCount><MaxKeys>99999999999999999999</MaxKeys><Contents><Key>a.txt</Key><Size>9223372036854775807</Size></Contents><IsTruncated>true</IsTruncated><NextContinuationToken>t</NextContinuationToken></ListBucketResult>"),
+			// truncated listings without the parts a next-page link is built from: no <Contents>, no marker, no token
+			d("truncated-empty", "<ListBucketResult><Name>b</Name><Prefix></Prefix><Delimiter>/</Delimiter><IsTruncated>true</IsTruncated><CommonPrefixes><Prefix>a/</Prefix></CommonPrefixes></ListBucketResult>"),
+			d("truncated-bare", "<ListBucketResult><IsTruncated>true</IsTruncated></ListBucketResult>"),
+			d("truncated-empty-marker", "<ListBucketResult><IsTruncated>true</IsTruncated><NextMarker></NextMarker><NextContinuationToken></NextContinuationToken><Marker></Marker></ListBucketResult>"),
 			d("keycount-nan", "<ListBucketResult><KeyCount>many</KeyCount><MaxKeys>1e3</MaxKeys><Contents><Key>a.txt</Key><Size>0x10</Size></Contents></ListBucketResult>"),
 		}
 	case "m3u8":
